@@ -8,6 +8,7 @@ mod sched;
 mod util;
 mod vsh;
 mod known;
+mod report;
 mod checks;
 mod models;
 
@@ -70,134 +71,7 @@ fn main() {
         eprintln!("unknown property id {id}");
         std::process::exit(2);
     }
-    std::process::exit(finish(&ctx));
-}
-
-/// Write evidence, print verdict lines, return the exit code.
-fn finish(ctx: &Ctx) -> i32 {
-    let known = known::load();
-    let viols = ctx.violations.lock().unwrap();
-    let mut unknown = 0;
-    let mut printed_known = std::collections::BTreeSet::new();
-    let verif_dir = std::env::var("VERIF_DIR").unwrap_or_else(|_| "/verif".into());
-    let replay_dir = format!("{verif_dir}/replay/{}", ctx.id);
-    let mut shown = 0;
-    for (n, v) in viols.iter().enumerate() {
-        if let Some(k) = known.iter().find(|k| k.matches(&ctx.id, &v.signature)) {
-            if printed_known.insert(k.signature.clone()) {
-                println!("KNOWN-FINDING: property={} {} [{}]", ctx.id, k.what, k.signature);
-            }
-            continue;
-        }
-        unknown += 1;
-        if shown < 20 {
-            shown += 1;
-            std::fs::create_dir_all(&replay_dir).ok();
-            let path = format!("{replay_dir}/{}-{}-{}.txt", tier_name(ctx.tier), ctx.seed, n);
-            let body = format!(
-                "property={}\ntier={}\nseed={}\nsignature={}\n---\n{}\n",
-                ctx.id,
-                tier_name(ctx.tier),
-                ctx.seed,
-                v.signature,
-                v.detail
-            );
-            std::fs::write(&path, body).ok();
-            println!("VIOLATION property={} replay={}", ctx.id, path);
-            println!("  signature: {}", v.signature);
-        }
-    }
-    let evals = ctx.evaluations.load(std::sync::atomic::Ordering::Relaxed);
-    let inconcl = ctx.inconclusive.load(std::sync::atomic::Ordering::Relaxed);
-    let nontrivial = ctx.nontrivial_count();
-    let mut coverage: Vec<(String, J)> = vec![
-        ("evaluations".into(), J::I(evals as i64)),
-        ("distinct_nontrivial".into(), J::I(nontrivial as i64)),
-        ("rule".into(), J::s(ctx.rule.clone())),
-    ];
-    // samples are filled below
-    let samples = ctx_samples(ctx);
-    coverage.push(("samples".into(), J::A(samples)));
-    if let Some(e) = *ctx.exhaustive.lock().unwrap() {
-        coverage.push(("exhaustive".into(), J::B(e)));
-    }
-    coverage.push(("inconclusive".into(), J::I(inconcl as i64)));
-    coverage.push((
-        "skipped_unspecified".into(),
-        J::I(ctx.skipped_unspecified.load(std::sync::atomic::Ordering::Relaxed) as i64),
-    ));
-    for (k, v) in ctx.counters.lock().unwrap().iter() {
-        coverage.push((k.clone(), J::I(*v)));
-    }
-    for (k, v) in ctx.extra.lock().unwrap().iter() {
-        coverage.push((k.clone(), v.clone()));
-    }
-    coverage.push((
-        "known_findings_reobserved".into(),
-        J::arr_s(printed_known.iter().cloned()),
-    ));
-    let ev = J::obj(vec![
-        ("property_id", J::s(ctx.id.clone())),
-        ("tier", J::s(tier_name(ctx.tier))),
-        ("seed", J::I(ctx.seed as i64)),
-        ("level", J::s(ctx.level)),
-        ("coverage", J::O(coverage)),
-        (
-            "assumptions",
-            J::arr_s(ctx.assumptions.lock().unwrap().iter().cloned()),
-        ),
-        ("wall_s", J::F(ctx.elapsed())),
-        ("violations", J::I(unknown as i64)),
-    ]);
-    let harness_ok = evals > 0 && nontrivial >= 2;
-    if ctx.replay.is_none() {
-        std::fs::create_dir_all(format!("{verif_dir}/evidence")).ok();
-        let path = format!("{verif_dir}/evidence/{}.json", ctx.id);
-        if harness_ok || unknown > 0 {
-            std::fs::write(&path, ev.render() + "\n").expect("write evidence");
-        }
-    }
-    println!(
-        "{}: tier={} seed={} evaluations={} distinct_nontrivial={} inconclusive={} violations={} known={} wall={:.1}s",
-        ctx.id,
-        tier_name(ctx.tier),
-        ctx.seed,
-        evals,
-        nontrivial,
-        inconcl,
-        unknown,
-        printed_known.len(),
-        ctx.elapsed()
-    );
-    for (k, v) in ctx.counters.lock().unwrap().iter() {
-        println!("  {k} = {v}");
-    }
-    if unknown > 0 {
-        return 1;
-    }
-    if ctx.replay.is_some() {
-        return 0;
-    }
-    if !harness_ok {
-        println!("INCONCLUSIVE: the check observed nothing (evaluations={evals}, nontrivial={nontrivial})");
-        return 2;
-    }
-    if inconcl * 100 > evals.max(1) {
-        println!("INCONCLUSIVE: {inconcl} of {evals} cases were inconclusive (>1%)");
-        return 2;
-    }
-    0
-}
-
-fn ctx_samples(ctx: &Ctx) -> Vec<J> {
-    ctx.take_samples()
-}
-
-fn tier_name(t: Tier) -> &'static str {
-    match t {
-        Tier::Quick => "quick",
-        Tier::Thorough => "thorough",
-    }
+    std::process::exit(report::finish(&ctx));
 }
 
 fn debug_sh(args: &[String]) {
